@@ -674,3 +674,60 @@ def main(argv):
         traceback.print_exc()
         print("INFRA-FAILURE %s: the check itself crashed" % a.pid)
         return 2
+
+
+# ---- session bindings of a real EvalEnvironment, independent of how the class stores them ----------------------------
+ENV_NAME_POOL = set("a b c d e f g h i j k l m n o p q r s t u v w x y z xs ys iv jv pi true false".split())
+
+
+def _env_dicts(env):
+    """the dict-like stores of an environment object, outermost first (a plain dict of bindings, or a stack of scopes)"""
+    out = []
+    for k, val in vars(env).items():
+        if isinstance(val, dict):
+            out.append((k, [val]))
+        elif isinstance(val, (list, tuple)) and val and all(isinstance(x, dict) for x in val):
+            out.append((k, list(val)))
+    return out
+
+
+def env_names(env, extra=()):
+    """candidate names: everything any dict-like store of the object mentions, the harness pool and `extra`"""
+    names = set(ENV_NAME_POOL) | set(extra)
+    for _k, ds in _env_dicts(env):
+        for d in ds:
+            names.update(k for k in d if isinstance(k, str))
+    return names
+
+
+def env_bindings(env, extra=()):
+    """name -> value for every name that READS as bound, decided through the public `get_variable` (so that a scope
+    stack, a shadow table or a renamed attribute are all observed the way a program observes them)"""
+    v = getattr(env, "_variables", None)
+    out = {}
+    for nm in sorted(env_names(env, extra) | (set(v) if isinstance(v, dict) else set())):
+        try:
+            out[nm] = env.get_variable(nm)
+        except Exception:  # noqa: unassigned
+            pass
+    return out
+
+
+def env_bound(env, name):
+    try:
+        env.get_variable(name)
+        return True
+    except Exception:  # noqa
+        return False
+
+
+def clone_env(env):
+    """an independent copy of a session: same class, every dict / stack-of-dicts attribute copied one level deep"""
+    import copy
+    e2 = copy.copy(env)
+    for k, val in list(vars(env).items()):
+        if isinstance(val, dict):
+            setattr(e2, k, dict(val))
+        elif isinstance(val, list):
+            setattr(e2, k, [dict(x) if isinstance(x, dict) else x for x in val])
+    return e2
